@@ -135,18 +135,19 @@ Qed.
 (* ... and, as long as the control connection stays open, its TLS state and its address family *)
 Definition keept (w w' : world) : Prop :=
   w_open w' = true ->
-  w_open w = true /\ w_ssl w' = w_ssl w /\ w_tls_up w' = w_tls_up w /\ w_sess_id w' = w_sess_id w /\ w_cur6 w' = w_cur6 w.
+  w_open w = true /\ w_ssl w' = w_ssl w /\ w_tls_up w' = w_tls_up w /\ w_sess_id w' = w_sess_id w /\ w_cur6 w' = w_cur6 w /\
+  w_tls_clean w' = w_tls_clean w.
 
 Lemma keept_refl w : keept w w.
-Proof. intro H. auto. Qed.
+Proof. intro H. repeat split; auto. Qed.
 Lemma keept_trans a b c : keept a b -> keept b c -> keept a c.
 Proof.
-  intros A B Hc. destruct (B Hc) as (Hb & B1 & B2 & B3 & B4). destruct (A Hb) as (Ha & A1 & A2 & A3 & A4).
+  intros A B Hc. destruct (B Hc) as (Hb & B1 & B2 & B3 & B4 & B5). destruct (A Hb) as (Ha & A1 & A2 & A3 & A4 & A5).
   split; [exact Ha|]. repeat split; congruence.
 Qed.
 Lemma keept_same a b : w_open b = w_open a -> w_ssl b = w_ssl a -> w_tls_up b = w_tls_up a -> w_sess_id b = w_sess_id a ->
-  w_cur6 b = w_cur6 a -> keept a b.
-Proof. intros H0 H1 H2 H3 H4 Hb. rewrite <- H0. auto. Qed.
+  w_cur6 b = w_cur6 a -> w_tls_clean b = w_tls_clean a -> keept a b.
+Proof. intros H0 H1 H2 H3 H4 H5 Hb. rewrite <- H0. repeat split; auto. Qed.
 Ltac tsame := apply keept_same; reflexivity.
 
 Lemma keept_do_send w line w' : do_send w line = Some w' -> keept w w'.
